@@ -59,10 +59,16 @@ C12Cases == {[routine |-> r, scalar |-> sc, n |-> n, pattern |-> p, basis |-> b]
             \cup {[routine |-> "fs_svd_rc", scalar |-> "real", n |-> n, pattern |-> p, basis |-> b] :
                n \in 2..4, p \in C12Patterns, b \in {"diag", "perm", "rot"}}
 
+\* C04: tan(beta) class x sign class of the soft masses x signs of (mu, M1, M2) x structure x generation exchange
+C04Cases == {[tb |-> t, soft |-> so, signs |-> g, st |-> st, swap |-> w] :
+               t \in {"half", "one", "mid", "large"}, so \in {"pos", "negL", "negR", "negsnu"},
+               g \in {"ppp", "ppm", "pmp", "pmm", "mpp", "mpm", "mmp", "mmm"},
+               st \in {"generic", "degenerate", "bigA", "negBmu"}, w \in {"none", "01", "02", "12"}}
+
 VARIABLE x
 Init == x = 0
 Next == UNCHANGED x
 Spec == Init /\ [][Next]_x
 
-ASSUME JsonSerialize(IOEnv.GEN_OUT, [C18 |-> C18Cases, C06 |-> C06Cases, C07 |-> C07Cases, C15 |-> C15Opts, C16 |-> C16Sets, C19 |-> C19Scheds, C08 |-> C08Cases, C09 |-> C09Cases, C10 |-> C10Cases, C20 |-> C20Cases, C12 |-> C12Cases])
+ASSUME JsonSerialize(IOEnv.GEN_OUT, [C18 |-> C18Cases, C06 |-> C06Cases, C07 |-> C07Cases, C15 |-> C15Opts, C16 |-> C16Sets, C19 |-> C19Scheds, C08 |-> C08Cases, C09 |-> C09Cases, C10 |-> C10Cases, C20 |-> C20Cases, C12 |-> C12Cases, C04 |-> C04Cases])
 =============================================================================
